@@ -395,7 +395,7 @@ func scenario(c *run.Ctx, idx int) {
 			if reimb {
 				pq = p.quorum()
 			}
-			op := r.Intn(16)
+			op := r.Intn(19)
 			var tx *types.Transaction
 			kind := ""
 			expect := false
@@ -486,6 +486,38 @@ func scenario(c *run.Ctx, idx int) {
 					tx = f.MustTx()
 				} else {
 					tx = signSender(base, false, q...)
+					kind, expect = "exact", true
+				}
+			case 9: // the payer's signatures are made by the sender's signers (each party is weighed against its own list)
+				if reimb && p.addr != a.addr {
+					tx = finish(signSender(base, true, q...), q, fx.GasPrice, 900000)
+					kind = "payer-signed-by-the-senders-signers"
+				} else {
+					tx = finish(signSender(base, reimb, q...), pq, fx.GasPrice, 900000)
+					kind, expect = "exact", true
+				}
+			case 10: // the sender's signatures are made by the payer's signers
+				if reimb && p.addr != a.addr {
+					tx = finish(signSender(base, true, pq...), pq, fx.GasPrice, 900000)
+					kind = "sender-signed-by-the-payers-signers"
+				} else {
+					tx = finish(signSender(base, reimb, q...), pq, fx.GasPrice, 900000)
+					kind, expect = "exact", true
+				}
+			case 11: // a multi-signature account's own (original) key signs alone, as sender or as payer
+				zero := fx.Key{}
+				switch {
+				case reimb && p.multisig() && p.own.Addr != zero.Addr && r.Chance(1, 2):
+					tx = finish(signSender(base, true, q...), []fx.Key{p.own}, fx.GasPrice, 900000)
+					kind = "multisig-payer-signed-by-its-own-key-alone"
+				case a.multisig() && a.own.Addr != zero.Addr:
+					tx = finish(signSender(base, reimb, a.own), pq, fx.GasPrice, 900000)
+					kind = "multisig-sender-signed-by-its-own-key-alone"
+				case reimb && p.multisig() && p.own.Addr != zero.Addr:
+					tx = finish(signSender(base, true, q...), []fx.Key{p.own}, fx.GasPrice, 900000)
+					kind = "multisig-payer-signed-by-its-own-key-alone"
+				default:
+					tx = finish(signSender(base, reimb, q...), pq, fx.GasPrice, 900000)
 					kind, expect = "exact", true
 				}
 			default: // single-field tampering after signing
